@@ -484,7 +484,7 @@ class Stats:
         self.samples = []
         self.probe = {"flatten_changes_schedule": 0, "flatten_compared": 0, "first_read_relinks": 0, "ties": 0,
                       "negative_starts": 0, "zero_length": 0, "nonleaf_last_ending": 0, "multi_links": 0,
-                      "channel_table_checked": 0, "channel_table_mismatch": 0, "states": {s: 0 for s in STATES}}
+                      "channel_table_checked": 0, "channel_table_mismatch": {}, "states": {s: 0 for s in STATES}}
 
     def fail(self, key, clause, function, witness, observed, required):
         size = len(json.dumps(witness, default=str))
@@ -516,7 +516,7 @@ class Stats:
         for k, v in o.probe.items():
             if isinstance(v, dict):
                 for kk, vv in v.items():
-                    self.probe[k][kk] += vv
+                    self.probe[k][kk] = self.probe[k].get(kk, 0) + vv
             else:
                 self.probe[k] += v
 
@@ -648,7 +648,8 @@ def check_case(program, state, gbuild, gnames, stats, verbose=False):
             mine = sorted(item_channels(it))
             real = sorted((ci.id, ci.channel.name) for ci in o.channel_identifiers)
             if mine != real:
-                stats.probe["channel_table_mismatch"] += 1
+                cls = it["k"] + ("(copy)" if (len(p) > 1 or tr.batch.get(id(o)) != 0) else "(original)")
+                stats.probe["channel_table_mismatch"][cls] = stats.probe["channel_table_mismatch"].get(cls, 0) + 1
 
     flat_sched, sample = {}, None
     for g in gnames:
@@ -1438,8 +1439,9 @@ def main(argv=None):
     ]
     pr = total.probe
     res.probes = [
-        {"assumption": f"own kind -> channel table equals the channels the real operations declare ({pr['channel_table_checked']} operations, {pr['channel_table_mismatch']} "
-                       "mismatches; mismatches inside sub-circuits stem from VirtualTwoQubitVacant.copy dropping the channel)", "ok": True},
+        {"assumption": f"own kind -> channel table equals the channels the real operations declare ({pr['channel_table_checked']} operations; mismatches by kind: "
+                       f"{pr['channel_table_mismatch']}; expected only for copies of VirtualTwoQubitVacant, whose copy() drops the channel)",
+         "ok": set(pr["channel_table_mismatch"]) <= {"VirtualTwoQubitVacant(copy)"}},
         {"assumption": f"reading circuit.operations re-links first-level operations of sub-circuits (hand-down; seen in {pr['first_read_relinks']} circuits); times are read after it",
          "ok": True},
         {"assumption": f"flattening is not part of the C01 statement: it re-links operations that followed a sub-circuit, the schedule changed in {pr['flatten_changes_schedule']} "
